@@ -67,7 +67,7 @@ func TestC05(t *testing.T) {
 			"DeleteWithMeta": 5, "SetXattrs": 6, "UpdateXattrs": 5, "RemoveXattrs": 3, "Add": 9, "AddRaw": 5, "WriteCas": 14,
 			"WriteResurrectionWithXattrs": 7, "WriteSubDoc": 3, "Incr": 3, "Touch": 1, "GetAndTouchRaw": 1, "SubdocInsert": 1}),
 		Keys:        []string{"a", "b", "c"},
-		MultiHandle: true, Purge: 3, Reopen: 1, Backfill: 3, Sync: 2, FeedsMax: 2,
+		MultiHandle: true, Purge: 1, Reopen: 1, Backfill: 3, Sync: 2, FeedsMax: 2,
 	}
 	seqProperty(t, "C05", "TestC05", pr, 1500,
 		"rapid histories weighted to delete / resurrect / xattr-on-tombstone / purge paths, observed through reads, live feed events, dump-feed backfills and follow-up insert-style writes; non-trivial = some key lost its body at least twice through at least two different delete paths and regained it through at least two different resurrect paths; distinct by <op, prior class, CAS class, outcome> sequence",
